@@ -70,7 +70,7 @@ def int_scalar(draw, o):
 def enum_def(draw, names, o, name=None):
     kind = draw(st.sampled_from(["enum", "flag"]))
     base = draw(st.sampled_from([b for b in o["ints"] if b in INT_PACKED + INT_ODD]))
-    if kind == "flag" and SCALARS[base][3] and draw(st.integers(0, 7)) != 0 and ("u" + base) in o["ints"]:
+    if kind == "flag" and SCALARS[base][3] and (not o.get("signed_flags", True) or draw(st.integers(0, 7)) != 0) and ("u" + base) in o["ints"]:
         base = "u" + base  # flags over signed bases are a rare, separately counted class (known finding KF-FLAG)
     size = SCALARS[base][1]
     signed = SCALARS[base][3]
@@ -168,10 +168,11 @@ def struct_type(draw, o, defs, names, depth, kind="struct", name=None, top=False
     while i < nf and not last_dynamic_eof:
         i += 1
         roll = draw(st.integers(0, 19))
-        if not (kind == "struct" and o["bits"] and roll < 3):
+        bits_now = kind == "struct" and o["bits"] and roll < o.get("bits_weight", 3)
+        if not bits_now:
             open_unit = None
         # bit-field run
-        if kind == "struct" and o["bits"] and roll < 3:
+        if bits_now:
             storage = draw(st.sampled_from([b for b in o["ints"] if b in INT_PACKED] or ["uint8"]))
             if o["enums"] and draw(st.integers(0, 4)) == 0:
                 ed = draw(enum_def(names, opts(**{**o, "ints": [b for b in o["ints"] if b in INT_PACKED] or ["uint8"]})))
@@ -199,11 +200,11 @@ def struct_type(draw, o, defs, names, depth, kind="struct", name=None, top=False
                     left = unit_bits  # next field starts a fresh unit of the same type
             open_unit = (sname, left if left != unit_bits else 0)
             continue
-        if o["void"] and roll == 3 and kind == "struct":
+        if o["void"] and roll == o.get("bits_weight", 3) and kind == "struct":
             fields.append({"name": field_name(draw, used, o["hazard"]), "t": S("void"), "bits": None})
             continue
         # anonymous inline member
-        if o["anon"] and o["nested"] and depth > 0 and roll == 4:
+        if o["anon"] and o["nested"] and depth > 0 and roll == o.get("bits_weight", 3) + 1:
             sub = opts(**{**o, "anon": False, "hazard": False})
             akind = draw(st.sampled_from(["struct", "union"] if o["unions"] else ["struct"]))
             if akind == "union":
@@ -223,7 +224,8 @@ def struct_type(draw, o, defs, names, depth, kind="struct", name=None, top=False
         t = base
         fn = field_name(draw, used, o["hazard"])
         is_dyn_union_ctx = kind == "union"
-        if o["arrays"] and roll >= 12 and base["k"] != "p" or (o["arrays"] and base["k"] == "p" and roll >= 17):
+        athr = 6 if o.get("array_weight") else 12
+        if o["arrays"] and roll >= athr and base["k"] != "p" or (o["arrays"] and base["k"] == "p" and roll >= 17):
             forms = ["fixed", "fixed", "fixed"]
             base_dyn = Sem(defs, {"endian": "<"}).size(base) is None
             if o["expr"] and int_fields and not is_dyn_union_ctx:
